@@ -192,6 +192,76 @@ def validate(tier):
     return bad == 0, f"hand wiring of the gap-merging functions vs pairwise_to_multiple on {len(cases)} concrete cases: {bad} mismatches"
 
 
+# ---------------------------------------------------------------- which DP engine runs (full matrix vs Hirschberg)
+class _Route(Exception):
+    pass
+
+
+def mk_dispatch(local, backward, nstates, _replay=None):
+    """PairEmissionProbs.dp chooses between the full traceback matrix and the linear-space Hirschberg recursion. Hirschberg is
+    global-only (scores_at_rows asserts `not local`): a local alignment must take the full-matrix route whatever its size;
+    a global one takes Hirschberg exactly when the first sequence has >= 3 positions, the pass is forward and
+    rows * columns * states exceeds HIRSCHBERG_LIMIT. Sequence sizes and the limit are symbolic; the engines are stubs."""
+    import time
+    import types
+    import warnings
+
+    import z3
+
+    import cogent3.align.pairwise as PW
+    from vlib import psx
+
+    t0 = time.time()
+    # sizes as reals: the routing condition is polynomial (rows * cols * states > limit), decided in QF_NRA; integrality plays no role
+    Mv, Nv, Lv, Bv = z3.Real("rows"), z3.Real("cols"), z3.Real("limit"), z3.Real("encoder_bytes")
+    A = [Mv >= 2, Nv >= 2, Lv >= 1, Bv >= 1, Bv <= 8]
+
+    def run(M, N, L, B):
+        ep = object.__new__(PW.PairEmissionProbs)
+        enc = types.SimpleNamespace(bytes=B, get_empty_array=lambda dims: (_ for _ in ()).throw(_Route("full")))
+        ep.pair = types.SimpleNamespace(size=[M, N], get_pointer_encoding=lambda n: enc)
+        ep.hirschberg = lambda TM, opts: (_ for _ in ()).throw(_Route("hirschberg"))
+        T = [[0.0] * nstates for _ in range(nstates)]
+        opts = PW.DPFlags(viterbi=True, local=local)
+        saved = PW.HIRSCHBERG_LIMIT
+        PW.HIRSCHBERG_LIMIT = L
+        try:
+            with warnings.catch_warnings():
+                warnings.simplefilter("ignore")
+                ep.dp((None, T), opts, backward=backward)
+        except _Route as r:
+            return str(r)
+        finally:
+            PW.HIRSCHBERG_LIMIT = saved
+        return "neither"
+
+    if _replay is not None:
+        import math
+
+        M, N, L, B = (int(math.ceil(float(_replay[k]))) for k in ("rows", "cols", "limit", "encoder_bytes"))
+        got = run(M, N, L, B)
+        want = "hirschberg" if (not local and not backward and M - 2 >= 3 and M * N * nstates > L) else "full"
+        return {"status": "reproduced" if got != want else "not_reproduced", "detail": f"rows={M} cols={N} states={nstates} limit={L} local={local}: route {got}, expected {want}"}
+
+    paths, stats = psx.explore(lambda: run(psx.SReal(Mv), psx.SReal(Nv), psx.SReal(Lv), psx.SReal(Bv)), A)
+    if not W.reach("end"):
+        routes = sorted({p.result for p in paths if p.exc is None})
+        return {"status": "cex" if routes else "inconclusive", "cex": {"twin": f"routes reached: {routes}"}}
+    nq = 0
+    cond = z3.And(z3.BoolVal(not local and not backward), Mv - 2 >= 3, Mv * Nv * nstates > Lv)
+    for p in paths:
+        if p.exc is not None:
+            return {"status": "inconclusive", "detail": f"raised {p.exc!r}"}
+        claim = cond if p.result == "hirschberg" else z3.Not(cond) if p.result == "full" else z3.BoolVal(False)
+        r, m, dt = psx.check_valid(A + list(p.assertions), claim, timeout_ms=120000)
+        nq += 1
+        if r == "sat":
+            return {"status": "cex", "cex": {str(v): psx.model_float(m, v) for v in (Mv, Nv, Lv, Bv)}, "queries": nq}
+        if r != "unsat":
+            return {"status": "inconclusive", "detail": f"z3 {r}"}
+    return {"status": "holds", "paths": len(paths), "queries": nq, "detail": f"routes {sorted({p.result for p in paths})}", "solver_s": round(time.time() - t0, 2)}
+
+
 ENCODED = [("src/cogent3/app/align.py", ["_GapOffset.__init__", "_GapOffset.__getitem__", "_merged_gaps", "_gap_difference", "_subset_gaps_to_align_coords", "_combined_refseq_gaps", "_gaps_for_injection"])]
 BOUNDS = {
     "quick": ["two pairwise alignments to one reference; reference length 1..2 (symbolic); each row has at most ONE gap run; gap lengths are shard keys (reference row 0..2, at most one non-reference row gapped, length 0..2); all gap positions symbolic inside the sequences",
@@ -207,9 +277,18 @@ OUTSIDE = ["everything dynamic-programming: pair-HMM Viterbi kernels, Hirschberg
 TRUSTED = ["the column reader in props/c18.py"]
 
 
+def _dispatch_obligations():
+    obs = []
+    for local in (False, True):
+        for backward in (False, True):
+            obs.append(Ob(f"dp_dispatch/{'local' if local else 'global'}/{'backward' if backward else 'forward'}", __name__, "mk_dispatch",
+                          {"local": local, "backward": backward, "nstates": 5}, kind="direct", timeout=600, group="dispatch"))
+    return obs
+
+
 def obligations(tier):
     T = tier == "thorough"
-    obs = []
+    obs = _dispatch_obligations()
     rls = range(0, 4) if T else range(0, 3)
     sls = range(0, 3)
     for rl1 in rls:
